@@ -197,13 +197,23 @@ pub fn build_inst<C: CurveAffine>(
 
 pub type EntryFn<C> = Box<dyn Fn(&Inst<C>) -> <C as PrimeCurveAffine>::Curve + Send + Sync>;
 
+#[derive(Clone, Copy, PartialEq, Eq)]
+pub enum PoolClass {
+    /// reads `rayon::current_num_threads()` itself (chunking / algorithm choice)
+    Dependent,
+    /// never touches rayon (no rayon call on its path)
+    Independent,
+    /// thin wrapper (filter zero scalars, normalise bases) that then calls a `Dependent` entry
+    Wrapper,
+}
+
 pub struct Entry<C: CurveAffine> {
     /// name used in finding keys (generic functions carry a curve prefix except on BLS12-381 G1)
     pub name: String,
     /// the call can reach the generic `msm_best` batch-affine path
     pub reaches_msm_best: bool,
-    /// the call never reads the rayon pool (no rayon on its path)
-    pub pool_independent: bool,
+    /// how the call relates to the rayon pool
+    pub pool_class: PoolClass,
     pub f: EntryFn<C>,
 }
 
@@ -212,7 +222,7 @@ pub fn generic_entries<C: CurveAffine>(prefix: &str) -> Vec<Entry<C>> {
         Entry {
             name: format!("{prefix}msm_serial"),
             reaches_msm_best: false,
-            pool_independent: true,
+            pool_class: PoolClass::Independent,
             f: Box::new(|i: &Inst<C>| {
                 let mut acc = C::Curve::identity();
                 msm_serial(&i.scalars, &i.bases, &mut acc);
@@ -222,13 +232,13 @@ pub fn generic_entries<C: CurveAffine>(prefix: &str) -> Vec<Entry<C>> {
         Entry {
             name: format!("{prefix}msm_parallel"),
             reaches_msm_best: false,
-            pool_independent: false,
+            pool_class: PoolClass::Dependent,
             f: Box::new(|i: &Inst<C>| msm_parallel(&i.scalars, &i.bases)),
         },
         Entry {
             name: format!("{prefix}msm_best"),
             reaches_msm_best: true,
-            pool_independent: false,
+            pool_class: PoolClass::Dependent,
             f: Box::new(|i: &Inst<C>| msm_best(&i.scalars, &i.bases)),
         },
     ]
@@ -269,8 +279,22 @@ pub struct MsmPlan {
     pub pools_for: Box<dyn Fn(usize) -> Vec<usize> + Sync>,
     /// pools for entries that never read the rayon pool
     pub pools_independent_for: Box<dyn Fn(usize) -> Vec<usize> + Sync>,
+    /// pools for thin wrappers around a pool-dependent entry
+    pub pools_wrapper_for: Box<dyn Fn(usize) -> Vec<usize> + Sync>,
     /// restrict the pattern list at a given length (None = all)
     pub patterns_for: Box<dyn Fn(usize) -> Option<Vec<&'static str>> + Sync>,
+    /// further restriction of the pattern list under a given pool size (None = no restriction)
+    pub patterns_under_pool: Box<dyn Fn(usize, usize) -> Option<Vec<&'static str>> + Sync>,
+}
+
+impl MsmPlan {
+    pub fn pools_of(&self, c: PoolClass, n: usize) -> Vec<usize> {
+        match c {
+            PoolClass::Dependent => (self.pools_for)(n),
+            PoolClass::Independent => (self.pools_independent_for)(n),
+            PoolClass::Wrapper => (self.pools_wrapper_for)(n),
+        }
+    }
 }
 
 /// Runs the sweep for one curve. Returns (pool sizes really observed, names of entries that hit
@@ -346,7 +370,7 @@ pub fn run_curve<C: CurveAffine>(cx: &mut Ctx, plan: &MsmPlan, entries: &[Entry<
     let mut all_pools: Vec<usize> = plan
         .lengths
         .iter()
-        .flat_map(|n| (plan.pools_for)(*n).into_iter().chain((plan.pools_independent_for)(*n)))
+        .flat_map(|n| (plan.pools_for)(*n).into_iter().chain((plan.pools_independent_for)(*n)).chain((plan.pools_wrapper_for)(*n)))
         .collect();
     all_pools.sort();
     all_pools.dedup();
@@ -356,16 +380,15 @@ pub fn run_curve<C: CurveAffine>(cx: &mut Ctx, plan: &MsmPlan, entries: &[Entry<
         let mut cases: Vec<(String, (usize, usize, Option<usize>))> = vec![];
         for n in &plan.lengths {
           for t in all_pools.iter().copied() {
-            let dep = (plan.pools_for)(*n).contains(&t);
-            let indep = (plan.pools_independent_for)(*n).contains(&t);
-            if !(dep || indep) {
+            let applies = |e: &Entry<C>| plan.pools_of(e.pool_class, *n).contains(&t);
+            if !entries.iter().any(applies) {
                 continue;
             }
             if *n < 1000 {
                 cases.push((format!("{curve}:len={n}:pool={t}"), (*n, t, None)));
             } else {
                 for (ei, e) in entries.iter().enumerate() {
-                    if if e.pool_independent { indep } else { dep } {
+                    if applies(e) {
                         cases.push((format!("{curve}:len={n}:pool={t}:entry={}", e.name), (*n, t, Some(ei))));
                     }
                 }
@@ -383,16 +406,15 @@ pub fn run_curve<C: CurveAffine>(cx: &mut Ctx, plan: &MsmPlan, entries: &[Entry<
             if seen != t {
                 out.counter("pool-size-mismatch", 1);
             }
-            let dep = (plan.pools_for)(n).contains(&t);
-            let indep = (plan.pools_independent_for)(n).contains(&t);
-            let list = &insts[&n];
+            let restrict = (plan.patterns_under_pool)(n, t);
+            let list: Vec<&Inst<C>> = insts[&n].iter().filter(|i| restrict.as_ref().map(|r| r.contains(&i.name)).unwrap_or(true)).collect();
             let mut ran: Vec<&str> = vec![];
             for (ei, e) in entries.iter().enumerate() {
-                if !(if e.pool_independent { indep } else { dep }) || only.map(|o| o != ei).unwrap_or(false) {
+                if !plan.pools_of(e.pool_class, n).contains(&t) || only.map(|o| o != ei).unwrap_or(false) {
                     continue;
                 }
                 ran.push(&e.name);
-                for inst in list {
+                for inst in list.iter().copied() {
                     let r = gp.run(|| (e.f)(inst));
                     let class = match &r {
                         Ok(v) if *v == inst.expected => {
@@ -432,8 +454,12 @@ pub fn run_curve<C: CurveAffine>(cx: &mut Ctx, plan: &MsmPlan, entries: &[Entry<
                         }
                         Err(p) => {
                             detail["panic"] = json!(p);
+                            let key = finding_key(e, inst, n, "panic", Some(&p));
+                            if key == "msm_best:identity-base:len>=8104:panic" {
+                                out.counter(&format!("msm_best-identity-panic-via:{}", e.name), 1);
+                            }
                             out.viol(Viol::new(
-                                finding_key(e, inst, n, "panic", Some(&p)),
+                                key,
                                 format!("{} on {curve} panicked (len {n}, pattern {}, rayon pool {t}): {p}", e.name, inst.name),
                                 detail,
                             ));
